@@ -173,18 +173,25 @@ Section Sync.
   Variable max_set_size split_factor : N.
   Definition MISSING : N := 2.   (* ContentStatus::Missing: no content-status callback is set *)
 
-  Definition sync_validate (now ns : N) (sig_ok : entry -> bool) (_ : tables) (e : entry) (_ : N) : bool :=
-    match validate_entry MAX_FUTURE now ns (mkW e (sig_ok e)) false with None => true | Some _ => false end.
+  (** The number paired with an entry in an item part is [content_status + 4 * b] where [b] = 1
+      iff the entry's signatures do NOT verify (or a key is not a curve point): signature
+      validity is an attribute of the wire value that the content-only model entry cannot carry.
+      Real content statuses are 0..2. The callback validates as the remote-insert path does:
+      emptiness, namespace, signatures, future bound. *)
+  Definition sig_bit_ok (st : N) : bool := negb (N.testbit st 2).
+  Definition sync_validate (now ns : N) (_ : tables) (e : entry) (st : N) : bool :=
+    validate_empty EH e &&
+    match validate_entry MAX_FUTURE now ns (mkW e (sig_bit_ok st)) false with None => true | Some _ => false end.
 
   (** one [Replica::sync_process_message] call: new tables, reply, counters, events *)
-  Definition sync_process (T : tables) (now ns : N) (sig_ok : entry -> bool) (from : N)
+  Definition sync_process (T : tables) (now ns : N) (from : N)
              (oc : outcome_counts) (m : message)
     : tables * option message * outcome_counts * list event :=
     let '(T', reply, ins) :=
       process_message (fs_ops key_succ EH ns) max_set_size split_factor (fun _ => MISSING)
-                      (sync_validate now ns sig_ok) T m in
+                      (sync_validate now ns) T m in
     let pol := get_policy T ns in
-    let evs := map (fun es => RemoteInsert (fst es) from (policy_matches pol (e_key (fst es))) (snd es)) ins in
+    let evs := map (fun es => RemoteInsert (fst es) from (policy_matches pol (e_key (fst es))) (snd es mod 4)) ins in
     let oc' := mkOC (oc_recv oc + value_count m)
                     (oc_sent oc + match reply with Some r => value_count r | None => 0 end) in
     (T', reply, oc', evs).
@@ -198,13 +205,13 @@ Section Sync.
     | O => None
     | S f =>
         if turn_b then
-          let '(TB', reply, ocB', _) := sync_process TB now nsB (fun _ => true) 0 ocB m in
+          let '(TB', reply, ocB', _) := sync_process TB now nsB 0 ocB m in
           match reply with
           | None => Some (TA, TB', ocA, ocB', rev acc)
           | Some r => session f now nsA nsB TA TB' ocA ocB' r false (r :: acc)
           end
         else
-          let '(TA', reply, ocA', _) := sync_process TA now nsA (fun _ => true) 0 ocA m in
+          let '(TA', reply, ocA', _) := sync_process TA now nsA 0 ocA m in
           match reply with
           | None => Some (TA', TB, ocA', ocB, rev acc)
           | Some r => session f now nsA nsB TA' TB ocA' ocB r true (r :: acc)
